@@ -854,7 +854,7 @@ func runC09(c *Ctx) error {
 		return err
 	}
 	// ---- generated: reader level
-	n := c.N(200, 1200)
+	n := c.N(150, 1200)
 	if c.Tier == "search" { // the search after a correspondence break: a second, larger quick run
 		n = 400
 	}
@@ -874,7 +874,7 @@ func runC09(c *Ctx) error {
 		}
 	}
 	// ---- generated: end to end
-	np := c.N(14, 100)
+	np := c.N(10, 100)
 	if c.Tier == "search" {
 		np = 24
 	}
